@@ -27,7 +27,7 @@ def run(ctx):
                 n1 += 1
                 t = norm(arg_by_name(x, msg_init, 'abs_time'))
                 from .common import ms_to_s_term_ok
-                ok = ms_to_s_term_ok(t, p, r"[\w.]+(?:\(\))?\.\w+\.search\(raw\)\.group\('timestamp'\)")
+                ok = ms_to_s_term_ok(t, p, r"[^()]*(?:\(\))?[^()]*\.(?:search|match)\(raw\)\.group\('timestamp'\)")
                 ctx.check(ok, 'C16.1', 'log-time:ms-to-s', f_pm.loc(), 'log time = float(timestamp group with , -> .) / 1000', 'log time is %s' % t[:140])
     ctx.floor('C16.1', n1, 2, 'Message constructions in parse.message')
     f_ex = repo.try_func('extract.extract_message')
